@@ -176,7 +176,7 @@ def run(ctx):
     ctx.finish_rule()
 
     # ------------------------------------------------------------------ R3
-    ctx.rule("C17.R3", "statement spans end at the last consumed operand", floor=3)
+    ctx.rule("C17.R3", "statement spans end at the last consumed operand", floor=2)
     operand_roots = ["lace::parser::AsmParser::parse_instr", "lace::parser::AsmParser::parse_trap"]
     scope = set()
     for r0 in operand_roots:
